@@ -31,6 +31,19 @@ def container? : SX → Option (String × List String)
     | _, _ => none
   | _ => none
 
+def body? : SX → Option Body
+  | .atom "empty" => some .empty
+  | .atom "keywords" => some .keywordsOnly
+  | .atom "typed" => some .typed
+  | .atom "notmapping" => some .notAMapping
+  | _ => none
+
+def entry? : SX → Option (String × Body)
+  | .list [n, b] => match n.str?, body? b with
+    | some n, some b => some (String.ofList n, b)
+    | _, _ => none
+  | _ => none
+
 def handlers : List (String × Handler) := [
   ("bounds.normalise", fun
     | [mn, mx, emn, emx] => match num? mn, num? mx, excl? emn, excl? emx with
@@ -44,6 +57,12 @@ def handlers : List (String × Handler) := [
   -- defs.pick (x64,65,66 xNAME …) … : names of the container that is walked
   ("defs.pick", fun cs => match cs.mapM container? with
     | some cs => "ok " ++ " ".intercalate ((pickContainer cs containerKeys).map (fun s => encodeStr s.toList))
+    | none => "err args"),
+  -- defs.walk (xNAME empty|keywords|typed|notmapping) … : names handed to parse_raw_obj, or `error`
+  ("defs.walk", fun es => match es.mapM entry? with
+    | some es => match walkNamed es with
+      | some ns => "ok " ++ " ".intercalate (ns.map (fun s => encodeStr s.toList))
+      | none => "error"
     | none => "err args")
 ]
 end Dcg.Driver.Bounds
